@@ -47,6 +47,23 @@ func init() {
 	addRule("C03", Rule{"C18.R7", "q", "shared: a rewritten chunk's size follows its write head", c18r7})
 	addRule("C13", Rule{"C13.R14", "q", "hint lookups cover every chunk that holds hints (loaded or written)", c13r14})
 	addRule("C02", Rule{"C13.R14", "q", "shared: hint lookups cover every chunk that holds hints (loaded or written)", c13r14})
+	clause := map[string]string{
+		"C01": "Bucket.get hands out the version kept in the index; the flusher only advances the write buffer past the flushed prefix",
+		"C04": "the flusher only advances the write buffer past the flushed prefix; (known finding) read-time collision registration is not serialised with writers",
+		"C10": "no early exit of the safe decompressors rejects the header of a well-formed stream, stored blocks included",
+		"C11": "numeric fields are parsed as decimal numbers and the byte count is known to fit 32 bits before the 32-bit size check; (known finding) the data block of a refused storage command stays in the stream",
+		"C16": "the C CRC routine returns the running register on every exit",
+		"C17": "a file is dated by the first record of its successor and the admin handler passes the parsed age limit on unchanged",
+		"C18": "a rewritten chunk's size follows its write head",
+		"C13": "hint lookups start at a chunk id that every installer of hints (writer and start-up loader) raises; (known findings) GC registers collisions only with merge=true, tombstone replay evicts by hash, the write-time version check ignores collisions, the collision table's positions are neither persisted on change nor revalidated",
+		"C06": "(known findings) a hint file covering more than its data file holds is trusted at start-up; stale collision-table positions survive a kill",
+		"C12": "an error exit of readRecordAt frees the record buffer unless the deferred cleanup already owns it",
+	}
+	for p, t := range clause {
+		if pr := Registry[p]; pr != nil && !strings.Contains(pr.Clause, t) {
+			pr.Clause += "; " + t
+		}
+	}
 	// sharing, so that the property a change breaks raises the alarm itself
 	addRule("C05", Rule{"C17.R2", "q", "shared: a pass runs only on the range the range check returned", c17r2})
 	addRule("C05", Rule{"C17.R5", "q", "shared: the range ends below the file receiving client writes", c17r5})
@@ -646,5 +663,282 @@ func c13r14(c *Ctx) {
 			return true
 		})
 		c.check(ok, R, f.Key+": walk starts at maxChunkID", f.Pos(), "for i := maxChunkID; …", "the lookup no longer starts at the newest chunk that holds hints")
+	}
+}
+
+// ================================================================ genuine defects found in round 5
+// The rules below state necessary conditions that the UNCHANGED tree violates;
+// each was confirmed by executing the failing history against the real code
+// (probes kept under seeded/.incoming/_extras and repro/). They are listed in
+// known_findings.json and printed as KNOWN-FINDING (DESIGN.md section 9.2).
+
+func init() {
+	addRule("C13", Rule{"C13.R15", "q", "every GC pass registers the collisions of its range before it drops records", c13r15})
+	addRule("C03", Rule{"C13.R15", "q", "shared: every GC pass registers the collisions of its range before it drops records", c13r15})
+	addRule("C13", Rule{"C13.R16", "q", "replay of a tombstone removes only its own key's slot", c13r16})
+	addRule("C13", Rule{"C13.R17", "q", "the version arbitration of a write reads its own key's entry", c13r17})
+	addRule("C13", Rule{"C13.R18", "q", "collision-table positions are persisted when they change or revalidated when loaded", c13r18})
+	addRule("C06", Rule{"C13.R18", "q", "shared: collision-table positions are persisted when they change or revalidated when loaded", c13r18})
+	addRule("C04", Rule{"C04.L11", "q", "read-time collision registration is serialised with writers", c04l11})
+	addRule("C13", Rule{"C04.L11", "q", "shared: read-time collision registration is serialised with writers", c04l11})
+	addRule("C06", Rule{"C06.R9", "q", "hints that claim more data than the file holds are not trusted", c06r9})
+	addRule("C11", Rule{"C11.R13", "q", "the data block of a refused storage command is consumed or the connection closed", c11r13})
+}
+
+// c13r15: GC decides "not the newest ⇒ drop" for a record whose hash slot in
+// the tree belongs to another position. That is only sound if every pair of
+// keys sharing a hash inside the range is in the collision table (or in the
+// hint buffers written since the pass began); the table is completed by the
+// hint merge, so the merge must run before every pass.
+func c13r15(c *Ctx) {
+	const R = "C13.R15"
+	f := c.fn(R, "store.GCMgr.BeforeBucket")
+	if f == nil {
+		return
+	}
+	calls := f.CallsTo("store.hintMgr.Merge")
+	if len(calls) == 0 {
+		c.viol(R, f.Key+": hint merge (collision registration) on every pass", f.Pos(), "BeforeBucket never merges the hints: no GC pass registers unregistered collisions")
+		return
+	}
+	uncond := false
+	for _, call := range calls {
+		if len(f.GuardsAt(call.Expr)) == 0 {
+			uncond = true
+		}
+	}
+	c.check(uncond, R, f.Key+": hint merge (collision registration) on every pass", calls[0].Pos(), "unconditional",
+		"the hint merge that registers same-hash key groups in the collision table runs only when the request asks for it (`merge`): a pass with merge=false treats the older of two never-read colliding keys as superseded and drops its only record")
+}
+
+// c13r16: the tree has one slot per key hash. Replaying the tombstone of key B
+// must not evict the slot when it belongs to a live key A with the same hash.
+func c13r16(c *Ctx) {
+	const R = "C13.R16"
+	f := c.fn(R, "store.Bucket.updateHtreeFromHint")
+	if f == nil {
+		return
+	}
+	info := f.Info()
+	rem := f.CallsTo("store.HTree.remove")
+	if len(rem) == 0 {
+		c.undec(R, f.Key, "tombstone branch (HTree.remove) not found")
+		return
+	}
+	for _, call := range rem {
+		// unconditional removal: the position handed over has ChunkID == -1
+		uncond := false
+		if len(call.Expr.Args) == 2 {
+			for _, s := range f.SourcesOfField(call.Expr.Args[1], "ChunkID", call.Expr) {
+				if s.Kind == "const" && s.Expr != nil {
+					if v, ok := prog.ConstInt(info, s.Expr); ok && v == -1 {
+						uncond = true
+					}
+				}
+			}
+		}
+		keyed := false
+		for _, a := range f.GuardsAt(call.Expr) {
+			ast.Inspect(a.X, func(x ast.Node) bool {
+				if ce, ok := x.(*ast.CallExpr); ok {
+					k := prog.CalleeKey(info, ce)
+					if strings.Contains(k, "CollisionTable") || strings.Contains(k, "bytes.") || strings.Contains(k, "hintMgr.get") {
+						keyed = true
+					}
+				}
+				return true
+			})
+		}
+		c.check(!uncond || keyed, R, f.Key+": tombstone replay removes the slot of its own key only", call.Pos(), "removal keyed on the owner",
+			"the replay of a delete record removes whatever entry sits in the key hash's slot (position with ChunkID -1 = unconditional, no look at the collision table or the owner's key): after a rebuild from hints a live key that shares its hash with a deleted one is unreadable")
+	}
+}
+
+// c13r17: checkAndSet/incr read the old version with Bucket.get(ki, memOnly =
+// true). That path must not hand out the tree slot of another key.
+func c13r17(c *Ctx) {
+	const R = "C13.R17"
+	f := c.fn(R, "store.Bucket.get")
+	if f == nil {
+		return
+	}
+	info := f.Info()
+	memOnly := f.Param(1)
+	var ret *ast.ReturnStmt
+	for _, r := range f.CFG().Returns() {
+		if prog.HasBoolFact(f.GuardsAt(r), prog.IsObj(info, memOnly), true) {
+			ret = r
+		}
+	}
+	if ret == nil {
+		c.undec(R, f.Key, "memOnly return not found")
+		return
+	}
+	cmp := f.CallsTo("bytes.Compare", "bytes.Equal")
+	dominated := false
+	for _, k := range cmp {
+		if f.CFG().Dominates(k.Expr, ret) {
+			dominated = true
+		}
+	}
+	// or: the meta comes from a collision-aware source for this key only
+	c.check(dominated, R, f.Key+": memOnly result belongs to the requested key", c.pos(ret), "key compared before the meta is handed out",
+		"with memOnly the tree slot's version is returned without comparing the slot's key with the requested key (`omit collision`): the version arbitration of a write to key B runs against colliding key A's entry — e.g. after `delete A`, `delete B` is answered NOT_FOUND and B stays readable")
+}
+
+// c13r18: Bucket.get takes a colliding key's position from the collision table
+// before it looks at the tree. The table is written to disk only by the hint
+// merge and by close; positions changed afterwards (client writes, GC moves)
+// are lost by a kill, and the loaded positions are used without a check.
+func c13r18(c *Ctx) {
+	const R = "C13.R18"
+	callers := map[string]bool{}
+	for _, call := range c.P.CallersOf("store.hintMgr.dumpCollisions") {
+		callers[call.Fn.Key] = true
+	}
+	// writers of table positions
+	persisted := true
+	var missing []string
+	for _, w := range []string{"store.hintMgr.set", "store.GCMgr.UpdateCollision", "store.Bucket.get"} {
+		f := c.P.F(w)
+		if f == nil {
+			continue
+		}
+		c.Funcs[w] = true
+		if len(f.CallsTo("store.CollisionTable.compareAndSet")) == 0 && w != "store.GCMgr.UpdateCollision" {
+			continue
+		}
+		if !callers[w] {
+			persisted = false
+			missing = append(missing, short(w))
+		}
+	}
+	revalidated := false
+	if f := c.P.F("store.Bucket.open"); f != nil {
+		c.Funcs[f.Key] = true
+		for _, call := range f.CallsTo("store.hintMgr.loadCollisions") {
+			_ = call
+			// a revalidation would read the records or hints of the loaded entries
+			if lf := c.P.F("store.CollisionTable.load"); lf != nil {
+				if len(lf.CallsTo("store.dataStore.GetRecordByPos", "store.hintMgr.getItem")) > 0 {
+					revalidated = true
+				}
+			}
+		}
+	}
+	c.check(persisted || revalidated, R, "collision table: positions durable or revalidated", "store/collision.go", "dump after change, or check at load",
+		"positions in the collision table change in "+strings.Join(missing, ", ")+" without the table being written out (only Merge and close dump it), and Bucket.open loads collision.yaml without checking the entries against hints or data: after a kill (or a GC followed by a kill) a colliding key is served from its stale table position — an older value, or another record")
+}
+
+// c04l11: when Bucket.get finds that the slot belongs to another key it looks
+// the wanted key up in the hints and inserts what it found into the collision
+// table. A writer of that key skips the table while the hash is not in it; if
+// it runs between the lookup and the insert, the insert publishes the older
+// position over the acknowledged write.
+func c04l11(c *Ctx) {
+	const R = "C04.L11"
+	f := c.fn(R, "store.Bucket.get")
+	if f == nil {
+		return
+	}
+	cas := f.CallsTo("store.CollisionTable.compareAndSet")
+	if len(cas) == 0 {
+		c.undec(R, f.Key, "read-time registration (compareAndSet) not found")
+		return
+	}
+	all := true
+	ls := ""
+	for _, call := range cas {
+		h, s := holds(c, f, call.Expr, lkWrite)
+		ls = s
+		if !h {
+			all = false
+		}
+	}
+	c.check(all, R, f.Key+": read-time collision registration under Bucket.writeLock", cas[0].Pos(), "lockset "+ls,
+		"Bucket.get inserts the hint item it looked up into the collision table without the bucket write lock (lockset "+ls+"): a set of the same key acknowledged between the lookup and the insert is shadowed by the older position — stale read, and the next write continues from the old version")
+}
+
+// c06r9: a hint split is dumped when it is full, independently of the data
+// flusher, so after a kill a hint file can claim more data than the data file
+// holds. Start-up must not trust such a file.
+func c06r9(c *Ctx) {
+	const R = "C06.R9"
+	f := c.fn(R, "store.Bucket.checkHintWithData")
+	if f == nil {
+		return
+	}
+	info := f.Info()
+	ld := f.CallsTo("store.hintMgr.loadHintsByChunk")
+	if len(ld) == 0 {
+		c.undec(R, f.Key, "loadHintsByChunk not called")
+		return
+	}
+	hsz := f.ResultObj(ld[0].Expr, 0)
+	handled := false
+	ast.Inspect(f.Decl.Body, func(x ast.Node) bool {
+		if be, ok := x.(*ast.BinaryExpr); ok && hsz != nil {
+			l, r := prog.ObjOf(info, prog.Unparen(be.X)), prog.ObjOf(info, prog.Unparen(be.Y))
+			isSize := func(e ast.Expr) bool {
+				for _, s := range f.SourcesAt(e, be) {
+					if prog.MentionsField(info, s.Expr, "store.dataChunk.size") || strings.HasSuffix(s.Field, "size") {
+						return true
+					}
+				}
+				return false
+			}
+			if (l == hsz && isSize(be.Y) && (be.Op == token.GTR || be.Op == token.NEQ)) || (r == hsz && isSize(be.X) && (be.Op == token.LSS || be.Op == token.NEQ)) {
+				handled = true
+			}
+		}
+		return true
+	})
+	c.check(handled, R, f.Key+": hint coverage beyond the end of the data file is handled", ld[0].Pos(), "hintDataSize > size ⇒ distrust",
+		"start-up compares the hints' data coverage with the data file only for `<`: a hint split dumped before the records it describes were flushed (a split is dumped when full, the data flusher runs on its own clock) survives a kill and is trusted, so its keys point past the end of the file — gets fail although an older, durable value exists")
+}
+
+// c11r13: after the command line of a storage command was accepted far enough
+// to know the byte count, refusing the command (value too large, flush buffer
+// full) leaves the data block in the stream; it is then parsed as commands.
+func c11r13(c *Ctx) {
+	const R = "C11.R13"
+	rd := c.fn(R, "memcache.Request.Read")
+	so := c.fn(R, "memcache.ServerConn.ServeOnce")
+	if rd == nil || so == nil {
+		return
+	}
+	info := rd.Info()
+	n := 0
+	for _, r := range rd.CFG().Returns() {
+		if len(r.Results) != 1 {
+			continue
+		}
+		o := prog.ObjOf(info, r.Results[0])
+		if o == nil || (o.Name() != "ErrValueTooLarge" && o.Name() != "ErrOOM") {
+			continue
+		}
+		n++
+		// consumed in Read?
+		consumed := false
+		for _, s := range enclosingList(rd, r) {
+			if s.Pos() < r.Pos() && len(rd.CallsIn(s, "bufio.Reader.Discard", "io.CopyN", "io.ReadFull")) > 0 {
+				consumed = true
+			}
+		}
+		// or closed by the server loop for that error
+		closed := false
+		sinfo := so.Info()
+		for _, call := range so.CallsTo("memcache.ServerConn.Shutdown") {
+			for _, a := range so.GuardsAt(call.Expr) {
+				if a.Op == token.EQL && (prog.ObjOf(sinfo, a.Y) != nil && prog.ObjOf(sinfo, a.Y).Name() == o.Name()) {
+					closed = true
+				}
+			}
+		}
+		c.check(consumed || closed, R, rd.Key+": "+o.Name()+" ⇒ data block consumed or connection closed", c.pos(r), "discard / shutdown",
+			"a storage command refused with "+o.Name()+" after its byte count was read leaves its data block in the stream: the block is parsed as further commands, the client receives extra error replies and every later reply is shifted")
+	}
+	if n == 0 {
+		c.undec(R, rd.Key, "no refusal (ErrValueTooLarge / ErrOOM) found in Read")
 	}
 }
